@@ -89,15 +89,15 @@ func (c *conn) Close() error {
 	return c.terminate(net.ErrClosed)
 }
 
-// terminate gracefully shuts down the connection by canceling the server context,
-// closing the transaction channel if it exists, and closing the underlying stream.
+// terminate gracefully shuts down the connection by canceling the server context
+// and closing the underlying stream.
 // It accepts an error parameter to provide context for the cancellation.
 // Returns any error encountered while closing the stream.
 func (c *conn) terminate(err error) error {
 	c.cancel(err) // Cancel the server context
-	if tx := c.tx.Swap(chan txMsg(nil)); tx != nil && tx != chan txMsg(nil) {
-		close(tx.(chan txMsg))
-	}
+	// The tx channel is never closed: a concurrent send may have loaded it already and
+	// would panic sending on a closed channel. Cancelling the context is enough, as send
+	// and writeloop both watch it.
 	return c.stream.Close() // Close the connection
 }
 
